@@ -24,11 +24,15 @@ TRUSTED = [
     "this correspondence harness (exhaustive grid over the real API) and the S-expression driver",
 ]
 ASSUMPTIONS = [
-    "the child query over a plain list domain yields exactly its n elements (that is C01/C02's subject, not C09's)",
+    "the child query yields exactly its n solutions (that is C01/C02's subject, not C09's); the model is parametric in the "
+    "solutions' type, i.e. never inspects a value (falsy solutions count like any other)",
     "CPython generator protocol: an exception raised inside the generator surfaces at the next() that triggers it",
 ]
 RULE = ("exhaustive grid: every constraint kind x bounds 0..B x n 0..N through the real an()/the() API, every "
-        "constructor on -3..B, plus random larger values; non-trivial = the constraint is present and n is within "
+        "constructor on -3..B, plus random larger values; the same grid over solutions that are falsy Python values "
+        "(__bool__/__len__ objects, the int 0) bound by a condition; evaluation histories of one query object (partial "
+        "consumption, retries after a too-many-solutions failure; list and one-shot generator domains, with and without a "
+        "binding condition); non-trivial = the constraint is present and n is within "
         "2 of one of its bounds (the region where outcomes change); distinct by case text")
 EXHAUSTIVE = True
 
@@ -91,6 +95,28 @@ def generate(rng, tier, n):
             if 0 <= a <= b:
                 for k in range(N + 1):
                     cases.append(Case(f"(run (range {a} {b}) {k})", ("run", "range"), "exhaustive"))
+    # solutions that are falsy Python values (the count is about solutions, not about their truthiness)
+    for pat in ("bool", "len", "int"):
+        for k in range(min(N, 5) + 1):
+            cases.append(Case(f"(thef {k} {pat})", ("the", "falsy-values"), "exhaustive"))
+            cases.append(Case(f"(runf (none) {k} {pat})", ("run", "none", "falsy-values"), "exhaustive"))
+            for kind in ("exactly", "atLeast", "atMost"):
+                for v in range(0, 5):
+                    cases.append(Case(f"(runf ({kind} {v}) {k} {pat})", ("run", kind, "falsy-values"), "exhaustive"))
+            for a, b in ((0, 1), (1, 2), (2, 4), (3, 3)):
+                cases.append(Case(f"(runf (range {a} {b}) {k} {pat})", ("run", "range", "falsy-values"), "exhaustive"))
+    # retried evaluations: an evaluation that failed because of too many solutions is repeated on the same query object
+    for kind in ("exactly", "atMost", "range"):
+        for v in range(0, 4):
+            for extra in (1, 2, 3):
+                c = f"(range {max(0, v - 1)} {v})" if kind == "range" else f"({kind} {v})"
+                ks = " ".join(["-1"] * (extra + 2))
+                cases.append(Case(f"(hist {c} {v + extra} {ks})", ("hist", kind, "retry"), "exhaustive"))
+                ks2 = " ".join([str(v + 1)] * (extra + 1) + ["-1"])
+                cases.append(Case(f"(hist {c} {v + extra} {ks2})", ("hist", kind, "retry"), "exhaustive"))
+                for h, tg in (("histg", ("generator-domain",)), ("histc", ("condition",)), ("histgc", ("generator-domain", "condition"))):
+                    cases.append(Case(f"({h} {c} {v + extra} {ks})", ("hist", kind, "retry") + tg, "exhaustive"))
+                    cases.append(Case(f"({h} {c} {v + extra} {ks2})", ("hist", kind, "retry") + tg, "exhaustive"))
     # histories: ONE query object evaluated several times, earlier iterators left suspended (kept alive)
     for _ in range(max(40, n // 2)):
         kind = rng.choice(["exactly", "atLeast", "atMost", "range"])
@@ -98,7 +124,9 @@ def generate(rng, tier, n):
         c = f"(range {v} {v + rng.randrange(0, 3)})" if kind == "range" else f"({kind} {v})"
         nn = max(0, v + rng.randrange(-2, 3))
         ks = [rng.choice([-1, 0, 1, 1, 2, 3]) for _ in range(rng.randrange(2, 5))]
-        cases.append(Case(f"(hist {c} {nn} {' '.join(map(str, ks))})", ("hist", kind), "random"))
+        h = rng.choice(["hist", "histg", "histc", "histgc"])
+        cases.append(Case(f"({h} {c} {nn} {' '.join(map(str, ks))})", ("hist", kind) + (("generator-domain",) if "g" in h[4:] else ())
+                          + (("condition",) if h.endswith("c") else ()), "random"))
     for _ in range(n):
         kind = rng.choice(["exactly", "atLeast", "atMost", "range"])
         v = rng.randrange(0, 60)
@@ -119,6 +147,11 @@ def nontrivial(case: Case, spec: str) -> bool:
         return False
     if case.line.startswith("(hist"):
         return True
+    if case.line.startswith("(runf (none)"):
+        return False
+    if case.line.startswith("(runf"):
+        *bounds, n = nums
+        return any(abs(n - b) <= 2 for b in bounds)
     if case.line.startswith("(run"):
         *bounds, n = nums
         return any(abs(n - b) <= 2 for b in bounds)
@@ -192,11 +225,50 @@ class _Item:
     def __init__(self, i): self.i = i
 
 
+class _BoolItem(_Item):
+    """user objects that define their own truthiness: every even element is falsy"""
+    __slots__ = ()
+    def __bool__(self): return self.i % 2 == 1
+
+
+class _LenItem(_Item):
+    """container-like user objects: element i has length i % 3 (every third element is empty, hence falsy)"""
+    __slots__ = ()
+    def __len__(self): return self.i % 3
+
+
+def _falsy_query(pat: str, n: int):
+    """(described entity, projection to the element's index): the selected variable is BOUND by a condition that every
+    element satisfies, so all n elements are solutions — some of them falsy values"""
+    from krrood.entity_query_language.entity import let, entity
+    if pat == "int":
+        x = let(int, list(range(n)))
+        return entity(x, x >= 0), (lambda r: r)
+    cls = _BoolItem if pat == "bool" else _LenItem
+    x = let(cls, [cls(i) for i in range(n)])
+    return entity(x, x.i >= 0), (lambda r: r.i)
+
+
 def _one(case: Case) -> str:
     from krrood.entity_query_language.entity import let, entity
     from krrood.entity_query_language.quantify_entity import an, the
     s = _parse(case.line)
     try:
+        if s[0] == "thef":
+            e, proj = _falsy_query(s[2], int(s[1]))
+            return f"value {proj(the(e).evaluate())}"
+        if s[0] == "runf":
+            c = _mk(s[1])
+            e, proj = _falsy_query(s[3], int(s[2]))
+            q = an(e, quantification=c) if c is not None else an(e)
+            got = []
+            try:
+                for r in q.evaluate():
+                    got.append(proj(r))
+                out = "ok"
+            except Exception as ex:  # noqa: BLE001
+                out = _exc_name(ex)
+            return "[" + ",".join(map(str, got)) + "] " + out
         if s[0] == "mk":
             return "ok " + _show_constraint(_mk([s[1], s[2]]))
         if s[0] == "mkrange":
@@ -206,11 +278,13 @@ def _one(case: Case) -> str:
             x = let(_Item, [_Item(i) for i in range(n)])
             r = the(entity(x)).evaluate()
             return f"value {r.i}"
-        if s[0] == "hist":
+        if s[0] in ("hist", "histg", "histc", "histgc"):
             c = _mk(s[1])
             n = int(s[2])
-            x = let(_Item, [_Item(i) for i in range(n)])
-            q = an(entity(x), quantification=c) if c is not None else an(entity(x))
+            items = [_Item(i) for i in range(n)]
+            x = let(_Item, (it for it in items) if "g" in s[0][4:] else items)
+            e = entity(x, x.i >= 0) if s[0].endswith("c") else entity(x)
+            q = an(e, quantification=c) if c is not None else an(e)
             alive, outs = [], []
             for k in (int(t) for t in s[3:]):
                 it = iter(q.evaluate())
